@@ -1,6 +1,7 @@
 #!/bin/bash
 # runs every seeded mutation against its property's quick check and writes seeded/DETECTION.json
-cd /verif
+VERIF=$(cd "$(dirname "$0")/.." && pwd)
+cd $VERIF
 out=seeded/DETECTION.json
 echo "{" > $out.tmp
 first=1
@@ -8,7 +9,7 @@ for d in seeded/*/; do
   id=$(basename $d)
   [ -f $d/meta.json ] || continue
   prop=$(python3 -c "import json;print(json.load(open('$d/meta.json'))['property'])")
-  res=$(tools/mutcheck.sh /verif/${d%/}/patch.diff $prop 2>&1)
+  res=$(tools/mutcheck.sh $VERIF/${d%/}/patch.diff $prop 2>&1)
   rc=$(echo "$res" | grep -oE "exit=[0-9]+" | head -1 | cut -d= -f2)
   hs=$(echo "$res" | grep -E "harness=" | sed 's/^ *//' | head -4 | python3 -c "import sys,json;print(json.dumps([l.strip() for l in sys.stdin]))")
   [ $first = 1 ] || echo "," >> $out.tmp
